@@ -19,6 +19,11 @@ RULE = (
 RULE += (
     ' Added after seeded round 9: earlier allocate-mode results re-compared after later calls; 8 Python threads decoding 8 different streams at the same time.'
 )
+RULE += (
+    ' Added after seeded round 11: calls that are REJECTED (1-D / read-only / list / scalar / string posout or velout, unknown float_dtype, non-numeric boxsize, '
+    'flat 1-D data -> TypingError / TypeError / ValueError) followed by valid calls on the SAME input buffer object refilled in place with a different stream of '
+    'the same length (same or different header layout), refilled again, and on fresh buffers in either float type, each compared with the reference decoder.'
+)
 ASSUMPTIONS = [
     'float64 outputs compared at 1e-12*BoxSize; float32 outputs at 8 ulp(BoxSize) + 1e-6 relative (rounding of the float32 pipeline)',
     'particles that precede the first header decode to NaN by design; only their count is checked',
@@ -449,6 +454,169 @@ def check(run):
                 compare(run, small, 2000.0, 1000.0, np.float64, np.asarray(t['pos']), np.asarray(t['vel']), nexp, 'read_asdf:small-frames', 'read_asdf')
     finally:
         shutil.rmtree(d, ignore_errors=True)
+
+    # 6. valid calls after REJECTED calls (own random stream; appended after all other workload)
+    after_rejected_calls(run, pack9)
+
+
+def _mismatch(data, box, velz, dtype, pos, vel):
+    """None if (pos, vel) are the reference decode of `data` (same tolerances as compare()), else a description."""
+    rp, rv, _ = ref_decode(data, box, velz)
+    for name, got, ref in (('pos', pos, rp), ('vel', vel, rv)):
+        if got is None:
+            continue
+        if len(got) != len(ref):
+            return dict(which=name, problem='count', got=int(len(got)), expected=int(len(ref)))
+        g = np.asarray(got, dtype=np.float64)
+        scale = box if name == 'pos' else np.nanmax(np.abs(ref), initial=1.0)
+        if dtype == np.float64:
+            tol = 1e-12 * scale + 1e-12 * np.abs(ref)
+        else:
+            tol = 8 * float(np.spacing(np.float32(scale))) + 2e-6 * np.abs(ref)
+        with np.errstate(invalid='ignore'):
+            bad = ~((np.abs(g - ref) <= tol) | (np.isnan(g) & np.isnan(ref)))
+        if bad.any():
+            i = np.argwhere(bad)[0]
+            return dict(which=name, problem='value', particle=int(i[0]), comp=int(i[1]), got=float(g[tuple(i)]), expected=float(ref[tuple(i)]), nbad=int(bad.sum()))
+    return None
+
+
+def _valid_decode(pack9, data, box, velz, dtype, mode):
+    """One valid call in the given output mode -> (pos, vel) arrays (None for an output not requested)."""
+    N = len(data)
+    if mode == 'alloc':
+        return pack9.unpack_pack9(data, box, velz, float_dtype=dtype)
+    if mode == 'pos_only':
+        return pack9.unpack_pack9(data, box, velz, float_dtype=dtype, velout=False)[0], None
+    if mode == 'vel_only':
+        return None, pack9.unpack_pack9(data, box, velz, float_dtype=dtype, posout=False)[1]
+    po = np.full((N, 3), 4242.0, dtype=dtype)
+    vo = np.full((N, 3), 4242.0, dtype=dtype)
+    n1, n2 = pack9.unpack_pack9(data, box, velz, float_dtype=dtype, posout=po, velout=vo)
+    return po[: int(n1)], vo[: int(n2)]
+
+
+# arguments the routine legitimately refuses (numba TypingError / TypeError / ValueError on the unchanged code)
+REJECTIONS = ['velout_1d', 'posout_1d', 'posout_1d_no_vel', 'velout_readonly', 'posout_nested_list', 'velout_int_scalar', 'posout_str', 'bad_float_dtype', 'boxsize_str', 'data_flat_1d']
+
+
+def _rejected_call(pack9, buf, box, velz, dtype, kind):
+    """Make one call that is expected to be refused.  Name of the exception class if it was, else None."""
+    N = len(buf)
+    kw = dict(float_dtype=dtype)
+    data = buf
+    if kind == 'velout_1d':
+        kw.update(posout=np.empty((N, 3), dtype=dtype), velout=np.empty(N, dtype=dtype))
+    elif kind == 'posout_1d':
+        kw.update(posout=np.empty(N, dtype=dtype))
+    elif kind == 'posout_1d_no_vel':
+        kw.update(posout=np.empty(N, dtype=dtype), velout=False)
+    elif kind == 'velout_readonly':
+        vo = np.zeros((N, 3), dtype=dtype)
+        vo.flags.writeable = False
+        kw.update(velout=vo)
+    elif kind == 'posout_nested_list':
+        kw.update(posout=[[0.0, 0.0, 0.0] for _ in range(N)])
+    elif kind == 'velout_int_scalar':
+        kw.update(velout=3)
+    elif kind == 'posout_str':
+        kw.update(posout='pos')
+    elif kind == 'bad_float_dtype':
+        kw.update(float_dtype='no-such-float-type')
+    elif kind == 'boxsize_str':
+        box = 'box'
+    elif kind == 'data_flat_1d':
+        data = buf.reshape(-1)  # same memory, not a record array
+    from numba.core.errors import NumbaError
+
+    try:
+        pack9.unpack_pack9(data, box, velz, **kw)
+    except (NumbaError, TypeError, ValueError) as e:  # TypingError is a NumbaError
+        return type(e).__name__
+    return None
+
+
+def after_rejected_calls(run, pack9):
+    """A call that is REFUSED (wrong-dimension / read-only / non-array outputs, bad float type, ...) must leave nothing behind:
+    the next valid calls -- on the SAME input buffer object refilled in place with another stream of the same length, and on
+    fresh buffers -- decode their own stream.  The verdict comes only from the valid calls, against the reference decoder."""
+    rng = run.rng(1)
+    MODES = ('alloc', 'supplied', 'pos_only', 'vel_only')
+
+    def mkstream(nrec, layout, cpd):
+        """nrec records; layout = sorted header positions (position 0 always a header)."""
+        f = rng.integers(0, 4096, (nrec, 6))
+        f[:, 0] = rng.integers(0, 0xFF0, nrec)
+        d = pack_fields(f)
+        for h in layout:
+            d[h] = header_record(cpd, int(rng.integers(1, 4048)), [int(t) for t in rng.integers(0, cpd, 3)], lownib=int(rng.integers(0, 16)))[0]
+        return d
+
+    def layout_of(nrec, nh):
+        return sorted({0, *[int(t) for t in rng.integers(1, nrec, max(nh - 1, 0))]})
+
+    case = 0
+    for rep, dtype in itertools.product(range(3 if run.quick else 40), (np.float64, np.float32)):
+        for kind in REJECTIONS:
+            nrec = int(rng.integers(40, 3000))
+            box = float(rng.choice([1.0, 500.0, 2000.0]))
+            velz = float(rng.uniform(10, 5000))
+            cpd = CPDS[int(rng.integers(2, len(CPDS)))]
+            layA = layout_of(nrec, int(rng.integers(3, 9)))
+            # later streams of the same length: same header layout with other cells / velocity scales; fewer headers; another layout
+            layB = [layA, layA[: max(1, len(layA) // 2)], layout_of(nrec, len(layA))][case % 3]
+            A = mkstream(nrec, layA, cpd)
+            B = mkstream(nrec, layB, cpd)
+            C = mkstream(nrec, layA, CPDS[int(rng.integers(2, len(CPDS)))])
+            buf = np.empty_like(A)
+            desc = dict(rejected_call=kind, dtype=np.dtype(dtype).str, nrec=nrec, box=box, velz=velz, cpd=cpd, headers_first_stream=len(layA), headers_later_stream=len(layB))
+            mode = MODES[case % len(MODES)]
+            case += 1
+
+            # the same valid calls made in isolation first: if these are wrong it is not a call-history matter
+            buf[:] = A
+            run.ev()
+            pos, vel = _valid_decode(pack9, buf, box, velz, dtype, mode)
+            bad = _mismatch(buf, box, velz, dtype, pos, vel)
+            if bad:
+                run.violation(f'pack9-{bad["which"]}-decode', dict(stream='before-rejected-call', mode=mode, **bad, **desc))
+                return
+
+            # the refused call(s), on the buffer holding stream A
+            nrej = 1 + case % 2
+            for _ in range(nrej):
+                if _rejected_call(pack9, buf, box, velz, dtype, kind):
+                    run.count('rejected_calls_before_valid_ones')
+                else:
+                    run.count('calls_expected_to_be_rejected_that_were_accepted')
+
+            # valid calls afterwards: same buffer object refilled in place (twice), then fresh buffers, then the other float type
+            later = [
+                ('same-buffer-refilled', B, buf, dtype, mode),
+                ('same-buffer-refilled-again', C, buf, dtype, MODES[(case + 1) % len(MODES)]),
+                ('fresh-buffer', B, None, dtype, 'alloc'),
+                ('fresh-buffer-first-stream', A, None, dtype, mode),
+                ('fresh-buffer-other-float-type', C, None, np.float32 if dtype == np.float64 else np.float64, 'alloc'),
+            ]
+            for label, stream, target, dt, md in later:
+                if target is None:
+                    arg = np.array(stream, copy=True)
+                else:
+                    target[:] = stream
+                    arg = target
+                run.ev()
+                run.count('valid_calls_after_rejected_calls')
+                try:
+                    pos, vel = _valid_decode(pack9, arg, box, velz, dt, md)
+                except Exception as e:
+                    run.violation('pack9-valid-call-after-rejected-call', dict(later_call=label, mode=md, later_dtype=np.dtype(dt).str, problem=f'raised {type(e).__name__}: {e}'[:200], **desc))
+                    return
+                bad = _mismatch(stream, box, velz, dt, pos, vel)
+                if bad:
+                    run.violation('pack9-valid-call-after-rejected-call', dict(later_call=label, mode=md, later_dtype=np.dtype(dt).str, **bad, **desc))
+                    return
+                run.nt(('after-rejected', kind, np.dtype(dtype).str, label, md))
+    run.sample(dict(family='after-rejected-call', rejections=REJECTIONS, later_calls=['same-buffer-refilled', 'same-buffer-refilled-again', 'fresh-buffer', 'fresh-buffer-first-stream', 'fresh-buffer-other-float-type']))
 
 
 def replay(run, data):
